@@ -886,7 +886,11 @@ pub fn check_deadline(batch: &Vec<DeadlineCase>, cx: &mut Cx) -> vcore::Res {
         let timeout = Duration::from_millis(c.timeout_ms as u64);
         let first = match first {
             Ok(v) => v,
-            Err(f) => return cx.fail(f.sig, f.msg),
+            Err(f) => {
+                // a verdict that needs no confirmation; shrinking a batch of multi-second cases would take hours
+                FAILED.store(true, Ordering::SeqCst);
+                return cx.fail(f.sig, f.msg);
+            }
         };
         let Some(elapsed) = first else {
             cx.class("dontcare:blocking-send-got-in");
